@@ -132,13 +132,16 @@ func TestVerifC05(t *testing.T) {
 			continue
 		}
 		upper := s * 3 / 4 // whole seconds
-		for _, m := range []int64{3e9 - 1, 3e9, 3e9 + 1, upper * 1e9, upper*1e9 + 1, upper*1e9 - 1e9, (upper + 1) * 1e9, s * 1e9} {
+		for _, m := range []int64{0, 1, 1e9, 2e9, 3e9 - 1, 3e9, 3e9 + 1, upper * 1e9, upper*1e9 + 1, upper*1e9 - 1e9, (upper + 1) * 1e9, s * 1e9} {
 			for _, i := range []int{0, 2, 3, 7} {
 				if !thorough && (i == 0 || i == 7) && s%2 == 0 {
 					continue
 				}
-				emitDelay(fmt.Sprintf("d-exp-%d-%d-%d", s, m, i), s*1e9, time.Duration(m).String(), i,
-					verifh.Pick(r, []string{"0", "1", "mid", "half", "last", "rand"}), "min:explicit")
+				pick := verifh.Pick(r, []string{"0", "1", "mid", "half", "last", "rand"})
+				if m < 3e9 {
+					pick = verifh.Pick(r, []string{"0", "1"}) // a too-small min shows as a non-positive wait at the low draws
+				}
+				emitDelay(fmt.Sprintf("d-exp-%d-%d-%d", s, m, i), s*1e9, time.Duration(m).String(), i, pick, "min:explicit")
 			}
 		}
 	}
